@@ -227,6 +227,54 @@ def check_alignment(idx: Index, rep: Report) -> None:
         raise AnalysisError(f"{f.fq}: positional comprehensions over entry_arg_tuples not found")
 
 
+DIL = "xdsl/dialects/utils/dynamic_index_list.py"
+
+
+def check_index_list_reader(idx: Index, rep: Report) -> None:
+    """print_dynamic_index_list emits every static entry with f"{integer}" for arbitrary i64 entries (offsets, strides
+    and GEP indices may be negative); the element reader of every list parser that is in use must accept a sign."""
+    r = rep.rule("C05.R7", "the element reader of every dynamic-index-list parser in use accepts every integer print_dynamic_index_list can emit (negative static entries included)", floor=1)
+    mi = idx.module(DIL)
+    pr = idx.func(DIL, "print_dynamic_index_list")
+    emits = [n for n in walk_local(pr.node) if isinstance(n, ast.JoinedStr) and any(isinstance(v, ast.FormattedValue) and (v.format_spec is None) for v in n.values)] + [c for c in calls_in(pr.node) if call_attr(c) == "print_int"]
+    if not emits:
+        raise AnalysisError(f"{pr.fq}: the static entry is no longer printed as a plain integer")
+    # list parsers of this module that are called from anywhere (other modules or the directive class)
+    users: dict[str, int] = {}
+    names = [n for n in mi.functions if n.startswith("parse_dynamic_index_list")]
+    for m2 in idx.modules.values():
+        for c in [x for x in ast.walk(m2.tree) if isinstance(x, ast.Call)]:
+            nm = call_attr(c) or (c.func.id if isinstance(c.func, ast.Name) else None)
+            if nm in names:
+                users[nm] = users.get(nm, 0) + 1
+    if not users:
+        raise AnalysisError("no dynamic-index-list parser is in use")
+    for nm in sorted(names):
+        f = mi.functions[nm]
+        if nm not in users:
+            r.notes.append(f"{nm} has no caller in the repository: not an obligation")
+            continue
+        # element reader: the function called inside the lambda passed to parse_comma_separated_list
+        elems = []
+        for c in calls_in(f.node, local=False):
+            nm2 = c.func.id if isinstance(c.func, ast.Name) else None
+            if nm2 and nm2 in mi.functions and nm2.startswith("parse_dynamic_index"):
+                elems.append(mi.functions[nm2])
+        if not elems:
+            raise AnalysisError(f"{f.fq}: element reader not found")
+        for e in elems:
+            ints = [c for c in calls_in(e.node) if call_attr(c) in ("parse_integer", "parse_optional_integer")]
+            if not ints:
+                raise AnalysisError(f"{e.fq}: no integer reader found")
+            for c in ints:
+                kw = {k.arg: unparse(k.value) for k in c.keywords}
+                pos_neg = unparse(c.args[1]) if len(c.args) > 1 else None
+                if kw.get("allow_negative", pos_neg) == "False":
+                    r.fail(f"{f.fq}->{e.name}", Finding("C05.R7", e.fq, "negative-entry-rejected", f"`{unparse(c)}` refuses a sign, but print_dynamic_index_list prints static entries as plain integers and negative entries are valid (strides, offsets, GEP indices): the custom form of e.g. `llvm.getelementptr %p[-1]` or a subview with stride -1 cannot be parsed back ({users[nm]} call sites of {nm})", f"{e.module.relpath}:{c.lineno}"))
+                else:
+                    r.ok(f"{f.fq}->{e.name}", f"{e.module.relpath}:{c.lineno} `{unparse(c)}` accepts negative entries ({users[nm]} call sites of {nm})")
+
+
 def check(idx: Index, rep: Report, tier: str) -> str:
     rep.run(check_directive_pairs, idx, rep)
     rep.run(check_op_pairs, idx, rep, tier)
@@ -235,6 +283,7 @@ def check(idx: Index, rep: Report, tier: str) -> str:
     rep.run(check_attr_dict, idx, rep)
     rep.run(check_immutability, idx, rep)
     rep.run(check_alignment, idx, rep)
+    rep.run(check_index_list_reader, idx, rep)
     return (
         "Pairing / sibling-agreement rules over the declarative format engine and every hand-written operation format: "
         "parse+print pairing, consumed-input polarity of all parse implementations, set_empty discipline of optional groups, "
